@@ -64,7 +64,9 @@ def tasks(tier):
     # a deadline that is not a multiple of the clock tick nor of a millisecond (0.3754 s), through
     # the plain constructor and through RetryConfig
     for e in Q4 + ["RetryCfg.call", "AsyncRetryCfg.execute", "RetryPolicyCfg.execute",
-                   "AsyncRetryPolicyCfg.call", "RetryPolicySet.call"]:
+                   "AsyncRetryPolicyCfg.call", "RetryPolicySet.call", "deco", "adeco",
+                   "RetryPolicy.call", "AsyncRetryPolicy.execute", "Policy.context",
+                   "AsyncPolicy.context", "Retry.context", "AsyncRetry.context"]:
         cfg = dict(M=3, deadline=3.0032, alphabet=["ok", "x:T", "r:R"], durs=[0, 1, 3, 4],
                    dur_free=True, strat_menu=[1, 9], strat_free=True, overshoot=[0, 1],
                    over_free=True, max_unknown=None, sleeper="policy")
